@@ -167,4 +167,101 @@ def step (sm : ServerMeta) (s : Store) : Op → Store × Out
             ({ s with clients := s.clients.map fun x => if x.id == c.id then { x with metadata := merge x.metadata md } else x }, ⟨200, none⟩)
     | _ => (s, ⟨400, some "access_denied"⟩)
 
+/-! ### OpenID Connect Dynamic Registration claims (authlib/oidc/registration/claims.py) -/
+
+/-- what the provider metadata advertises for the members the OIDC claims class consults (none / empty = no restriction) -/
+structure OidcMeta where
+  acrValues : List String := []
+  /-- metadata member ↦ allowed values, for the eleven `*_values_supported` / `subject_types_supported` mappings, keyed by the REQUEST claim name -/
+  allowed : List (String × List String) := []
+  deriving Repr
+
+def oidcRegistered : List String :=
+  ["token_endpoint_auth_signing_alg", "application_type", "sector_identifier_uri", "subject_type", "id_token_signed_response_alg",
+   "id_token_encrypted_response_alg", "id_token_encrypted_response_enc", "userinfo_signed_response_alg", "userinfo_encrypted_response_alg",
+   "userinfo_encrypted_response_enc", "default_max_age", "require_auth_time", "default_acr_values", "initiate_login_uri",
+   "request_object_signing_alg", "request_object_encryption_alg", "request_object_encryption_enc", "request_uris"]
+
+def setDefault (p : Doc) (k : String) (v : V) : Doc := if has p k then p else p ++ [(k, v)]
+
+/-- `make_validator(values)`: `not value or value in values` -/
+def inAllowed (m : OidcMeta) (k : String) (v : V) : Option Err :=
+  match m.allowed.lookup k with
+  | none => none
+  | some vals =>
+    if vals.isEmpty || !v.truthy then none
+    else match v with
+      | .a x => if mem x (vals.map A.str) then none else some (.invalid k)
+      | .l _ => some (.invalid k)
+
+/-- one entry of `_validate_uri(key)` of the OIDC class (fragments allowed) -/
+def uriEntryErr (k : String) (x : A) : Option Err :=
+  if !x.truthy then none
+  else match x with
+    | .str s => if isValidUrl s.toList true then none else some (.invalid k)
+    | _ => some (.invalid k)
+
+/-- `_validate_uri(key)` of the OIDC class: scalar or array -/
+def checkUriOrList (p : Doc) (k : String) : Option Err :=
+  match mget p k with
+  | .l xs => (xs.filterMap (uriEntryErr k)).head?
+  | .a x => uriEntryErr k x
+
+def isStrNone (v : V) : Bool := v == .a (.str "none")
+
+/-- enc requires alg; alg present fills the default enc -/
+def encPair (p : Doc) (alg enc : String) : Option Err × Doc :=
+  if (mget p enc).truthy && !(mget p alg).truthy then (some (.invalid enc), p)
+  else (none, if (mget p alg).truthy then setDefault p enc (.a (.str "A128CBC-HS256")) else p)
+
+def isNumber (v : V) : Bool := match v with | .a (.num _) => true | .a (.bool _) => true | _ => false
+def isBool (v : V) : Bool := match v with | .a (.bool _) => true | _ => false
+
+/-- `default_acr_values` validator: `not value or set(value) ⊆ set(acr_values_supported)` -/
+def acrCheck (m : OidcMeta) (v : V) : Option Err :=
+  if m.acrValues.isEmpty || !v.truthy then none
+  else match pySet v with
+    | none => some (.invalid "default_acr_values")
+    | some xs => if xs.all fun x => mem x (m.acrValues.map A.str) then none else some (.invalid "default_acr_values")
+
+/-- one validator of the chain: its error ends the validation -/
+def chk (e : Option Err) (k : CR) : CR :=
+  match e with
+  | some (.invalid c) => .invalid c
+  | some (.crash x) => .crash x
+  | none => k
+
+/-- `oidc.registration.ClientMetadataClaims.validate()` then `get_registered_claims()` -/
+def validateOidcClaims (m : OidcMeta) (p0 : Doc) : CR :=
+  chk (if isStrNone (mget p0 "token_endpoint_auth_signing_alg") then some (.invalid "token_endpoint_auth_signing_alg") else none) <|
+  chk (inAllowed m "token_endpoint_auth_signing_alg" (mget p0 "token_endpoint_auth_signing_alg")) <|
+  let p1 := setDefault p0 "application_type" (.a (.str "web"))
+  chk (if mget p1 "application_type" == .a (.str "web") || mget p1 "application_type" == .a (.str "native") then none else some (.invalid "application_type")) <|
+  chk (checkUriOrList p1 "sector_identifier_uri") <|
+  chk (inAllowed m "subject_type" (mget p1 "subject_type")) <|
+  chk (if isStrNone (mget p1 "id_token_signed_response_alg") then some (.invalid "id_token_signed_response_alg") else none) <|
+  let p2 := setDefault p1 "id_token_signed_response_alg" (.a (.str "RS256"))
+  chk (inAllowed m "id_token_signed_response_alg" (mget p2 "id_token_signed_response_alg")) <|
+  chk (inAllowed m "id_token_encrypted_response_alg" (mget p2 "id_token_encrypted_response_alg")) <|
+  let r3 := encPair p2 "id_token_encrypted_response_alg" "id_token_encrypted_response_enc"
+  chk r3.1 <|
+  chk (inAllowed m "id_token_encrypted_response_enc" (mget r3.2 "id_token_encrypted_response_enc")) <|
+  chk (inAllowed m "userinfo_signed_response_alg" (mget r3.2 "userinfo_signed_response_alg")) <|
+  chk (inAllowed m "userinfo_encrypted_response_alg" (mget r3.2 "userinfo_encrypted_response_alg")) <|
+  let r4 := encPair r3.2 "userinfo_encrypted_response_alg" "userinfo_encrypted_response_enc"
+  chk r4.1 <|
+  chk (inAllowed m "userinfo_encrypted_response_enc" (mget r4.2 "userinfo_encrypted_response_enc")) <|
+  chk (if !(mget r4.2 "default_max_age").isNull && !isNumber (mget r4.2 "default_max_age") then some (.invalid "default_max_age") else none) <|
+  let p5 := setDefault r4.2 "require_auth_time" (.a (.bool false))
+  chk (if !(mget p5 "require_auth_time").isNull && !isBool (mget p5 "require_auth_time") then some (.invalid "require_auth_time") else none) <|
+  chk (acrCheck m (mget p5 "default_acr_values")) <|
+  chk (checkUriOrList p5 "initiate_login_uri") <|
+  chk (inAllowed m "request_object_signing_alg" (mget p5 "request_object_signing_alg")) <|
+  chk (inAllowed m "request_object_encryption_alg" (mget p5 "request_object_encryption_alg")) <|
+  let r6 := encPair p5 "request_object_encryption_alg" "request_object_encryption_enc"
+  chk r6.1 <|
+  chk (inAllowed m "request_object_encryption_enc" (mget r6.2 "request_object_encryption_enc")) <|
+  chk (checkUriOrList r6.2 "request_uris") <|
+  .ok (r6.2.filter fun kv => oidcRegistered.contains kv.1)
+
 end Model.Registration
